@@ -173,6 +173,9 @@ def oracle(c, impl):
 
 
 def classify(c, impl):
+    # a JSON integer literal below i64::MIN is kept by serde_json as f64 and then read as float SECONDS
+    if c.get("kind", "").startswith("jint") and int(c["show"]) < -2 ** 63:
+        return "JsonIntegerBelowI64ReadAsFloatSeconds"
     return None
 
 
